@@ -940,10 +940,30 @@ def np_copy(I, st, args, kw, node):
     if a.ndim == 1:
         first = a.elem(0) if I.concrete_int(a.shape[0]) != 0 else None
         fa = _arr(I, st, first) if first is not None and not is_num(first) and not is_boolish(first) else None
-        if fa is not None and fa.ndim == 1:
-            # a sequence of equally long sequences becomes a 2-d array (ragged input is outside the subset)
-            return st.alloc(Arr((a.shape[0], fa.shape[0]), lambda r, c: I.arr_of(a.elem(r), st).elem(c),
-                                kind="ndarray", etype=fa.etype), "arr")
+        if fa is not None and fa.ndim in (1, 2):
+            # a sequence of equally shaped arrays becomes an array of one more dimension; a RAGGED sequence makes
+            # NumPy raise ValueError (inhomogeneous shape): both outcomes are produced when the count is symbolic
+            used("np.array(list of k-d arrays): equally shaped items give a (k+1)-d array (block i is item i); ragged "
+                 "items raise ValueError")
+            nd = fa.ndim
+            outs = []
+            if I.concrete_int(a.shape[0]) is None and not I.in_contract:
+                q = z3.Int(fresh_name("rag"))
+                same = zand(*[to_z3(I.arr_of(a.elem(q), st).shape[d]) == to_z3(fa.shape[d]) for d in range(nd)])
+                uniform = z3.ForAll([q], z3.Implies(z3.And(q >= 0, q < to_z3(a.shape[0])), to_z3(same)))
+                s_bad = st.fork()
+                s_bad.assume(z3.Not(uniform))
+                outs.append((s_bad, None, Exc("ValueError", ())))
+                st.assume(uniform)
+            if nd == 1:
+                val = st.alloc(Arr((a.shape[0], fa.shape[0]), lambda r, c: I.arr_of(a.elem(r), st).elem(c),
+                                   kind="ndarray", etype=fa.etype), "arr")
+            else:
+                val = st.alloc(Arr((a.shape[0], fa.shape[0], fa.shape[1]),
+                                   lambda k, r, c: I.arr_of(a.elem(k), st).elem(r, c), kind="ndarray", etype=fa.etype), "arr")
+            if outs:
+                return outs + [(st, val, None)]
+            return val
     return st.alloc(Arr(a.shape, a.elem, kind="ndarray", etype=a.etype), "arr")
 
 
@@ -1400,6 +1420,8 @@ def etype_of(item):
         return "str"
     if isinstance(item, Opaque) and item.cls:
         return "opaque:" + item.cls
+    if isinstance(item, Arr) and item.kind == "ndarray" and item.etype in ("real", "int"):
+        return f"arr{item.ndim}[{item.etype}]"
     return "any"
 
 
@@ -1451,6 +1473,7 @@ def cm_exit(I, st, cm, exceptional):
     return
 
 
+OPAQUE_CALL: dict = {}      # class of an opaque callable -> model of calling it
 OPAQUE_GETITEM: dict = {}
 OPAQUE_SETITEM: dict = {}
 OPAQUE_ATTRS: dict = {}
